@@ -780,8 +780,18 @@ class BlobStorage(BlobStorageMixin):
         # We need to override the base storage's abort instead of
         # providing an _abort method because methods found on the proxied
         # object aren't rebound to the proxy
+
+        # The storage ignores a call with a transaction other than the
+        # one in progress; so must we (or the blob files of the one in
+        # progress are gone).
+        transaction = arg[0] if arg else kw.get('transaction')
+        tpc_transaction = getattr(self.__storage, 'tpc_transaction', None)
+        ours = (tpc_transaction is None
+                or tpc_transaction() is None
+                or tpc_transaction() is transaction)
         self.__storage.tpc_abort(*arg, **kw)
-        self._blob_tpc_abort()
+        if ours:
+            self._blob_tpc_abort()
 
     def _packUndoing(self, packtime, referencesf):
         # Walk over all existing revisions of all blob files and check
